@@ -408,6 +408,13 @@ func (app *App) stateManager() appState {
 		return stateManager
 	}
 
+	if app.cluster.Get(master) == nil || clusterState[master] == nil || clusterStateDcs[master] == nil {
+		// e.g. the host was removed from the cluster while it is still recorded as master:
+		// there is neither a node handle nor a state to reason about
+		app.logger.Error().Msgf("recorded master %s is not a registered node of the cluster, nothing can be decided", master)
+		return stateManager
+	}
+
 	// activeNodes are master + alive running replicas
 	activeNodes, err := app.GetActiveNodes()
 	if err != nil {
